@@ -11,5 +11,6 @@ func TestVerifReplay(t *testing.T) {
 		"VerifC10Quick":    VerifC10Quick,
 		"VerifC10Thorough": VerifC10Thorough,
 		"VerifC10Three":    VerifC10Three,
+		"VerifC10Scan3":    VerifC10Scan3,
 	})
 }
